@@ -50,6 +50,21 @@ def _mk() -> List[Entry]:
     add("slidingtile-3", "SlidingTilePuzzle", lambda time_limit=15, **k: E.SlidingTilePuzzle(generator=STGen(grid_size=3, num_random_moves=20), time_limit=time_limit, **k), time_limit=15)
     add("sudoku-default", "Sudoku", lambda **k: E.Sudoku(**k))
     add("binpack-toy", "BinPack", lambda **k: E.BinPack(generator=BPToy(), obs_num_ems=10, **k), constant_generator=True)
+    def _binpack_csv(**k):
+        # CSVGenerator over an instance written by the library's own save_instance_to_csv (kept under /verif/.cache, not /tmp)
+        import os
+
+        import jax
+        from jumanji.environments.packing.bin_pack.generator import CSVGenerator, save_instance_to_csv
+
+        d = os.path.join(os.path.dirname(os.path.dirname(os.path.abspath(__file__))), ".cache")
+        os.makedirs(d, exist_ok=True)
+        path = os.path.join(d, "binpack_instance.csv")
+        if not os.path.exists(path):
+            save_instance_to_csv(BPGen(max_num_items=6, max_num_ems=15)(jax.random.PRNGKey(3)), path)
+        return E.BinPack(generator=CSVGenerator(path, max_num_ems=15), obs_num_ems=8, **k)
+
+    add("binpack-csv", "BinPack", _binpack_csv, constant_generator=True)
     add("binpack-random", "BinPack", lambda **k: E.BinPack(generator=BPGen(max_num_items=8, max_num_ems=20), obs_num_ems=8, **k), heavy=True)
     add("flatpack-2x2", "FlatPack", lambda **k: E.FlatPack(generator=FPGen(num_row_blocks=2, num_col_blocks=2), **k))
     add("jobshop-3x3", "JobShop", lambda **k: E.JobShop(generator=JSGen(num_jobs=3, num_machines=3, max_num_ops=3, max_op_duration=3), **k))
